@@ -311,7 +311,7 @@ class TypeDeclarationStatement(Statement):
                     l = l[:-1].rstrip()
                 assert l.endswith(")"), repr(l)
                 l = l[1:-1].strip()
-                if l.lower().startswith("len"):
+                if l.lower().startswith("len") and l[3:].lstrip().startswith("="):
                     l = l[3:].lstrip()[1:].lstrip()
             kind = ""
         else:
